@@ -83,3 +83,12 @@ CASES += [
     {"name": "reduce acts at every depth", "kind": "mutant", "rule": "C20-G", "edits": [
         ("quantarhei/core/parallel.py", "        if self.parallel_level != 1:\n            return A\n", "        if self.parallel_level < 1:\n            return A\n", 1)]},
 ]
+
+CASES += [
+    {"name": "empty range answered before the block is recorded (seeded change of round 6)", "kind": "mutant", "rule": "C20-F", "edits": [
+        ("quantarhei/core/parallel.py", "        raise Exception(\"This code has to be run from a declared parallel_region\")\n        \n    if config.parallel_level==1:\n        \n        config.inparallel_entered = True\n        \n        rng = _calculate_ranges(config, start, stop)",
+         "        raise Exception(\"This code has to be run from a declared parallel_region\")\n        \n    if stop <= start:\n        return range(0)\n\n    if config.parallel_level==1:\n        \n        config.inparallel_entered = True\n        \n        rng = _calculate_ranges(config, start, stop)", 1)]},
+    {"name": "empty range short cut that records the block", "kind": "twin", "edits": [
+        ("quantarhei/core/parallel.py", "        raise Exception(\"This code has to be run from a declared parallel_region\")\n        \n    if config.parallel_level==1:\n        \n        config.inparallel_entered = True\n        \n        rng = _calculate_ranges(config, start, stop)",
+         "        raise Exception(\"This code has to be run from a declared parallel_region\")\n        \n    distributing = (config.parallel_level == 1)\n    if stop <= start and not distributing:\n        if config.parallel_region == 1:\n            config.range = [start, stop]\n        return range(start, stop)\n\n    if config.parallel_level==1:\n        \n        config.inparallel_entered = True\n        \n        rng = _calculate_ranges(config, start, stop)", 1)]},
+]
